@@ -1202,7 +1202,7 @@ func calleeKey(c *ssa.CallCommon) string {
 // specifications: "the value the code recomputed").
 func (f *FnEnc) recordCall(c *ssa.CallCommon, res Val) {
 	key := calleeKey(c)
-	if key == "" || res == nil {
+	if key == "" {
 		return
 	}
 	if f.lastRes == nil {
